@@ -322,23 +322,23 @@ class BaseClient:
 
         :rtype: :py:class:`pathlib.PurePosixPath`
         """
-        seq_quotes = 0
         start = False
+        quote = False
         directory = ""
         for ch in s:
             if not start:
                 if ch == '"':
                     start = True
+            elif quote:
+                if ch != '"':
+                    break
+                # a doubled quote stands for one quote of the name
+                quote = False
+                directory += ch
+            elif ch == '"':
+                quote = True
             else:
-                if ch == '"':
-                    seq_quotes += 1
-                else:
-                    if seq_quotes == 1:
-                        break
-                    elif seq_quotes == 2:
-                        seq_quotes = 0
-                        directory += '"'
-                    directory += ch
+                directory += ch
         return pathlib.PurePosixPath(directory)
 
     @staticmethod
